@@ -128,6 +128,12 @@ def run_case(ctx, rng, idx):
             if h.get_nodes():
                 ctx.event("re-evaluated-after-removing-an-edgeless-node")
                 evaluate(ctx, rng, idx, h, kind, ":after-removing-edgeless-node")
+        if h.get_nodes() and rng.random() < 0.3:  # the same hypergraph reached through other calls (copy of a copy / clear() and re-insertion)
+            from ..mutate import second_order
+
+            lab, g2 = second_order(rng, h)
+            ctx.event("re-evaluated-on-" + lab)
+            evaluate(ctx, rng, idx, g2, kind, ":" + lab)
 
 
 def evaluate(ctx, rng, idx, h, kind, phase, sample=None):
